@@ -601,11 +601,10 @@ namespace link_layer {
         {
             acknowledge( header & nesn_flag );
 
-            // resent PDU?
-            if ( static_cast< bool >( header & sn_flag ) == next_expected_sequence_number_ )
-            {
-                next_expected_sequence_number_ = !next_expected_sequence_number_;
-            }
+            // The PDU failed its integrity check and is not stored. next_expected_sequence_number_
+            // must stay as it is: if the PDU was a resent one, it was already acknowledged when it was
+            // received the first time; if it is a new one, it must not be acknowledged, so that
+            // the central sends it again.
         }
 
         return next_transmit();
